@@ -310,6 +310,9 @@ def _run_shards(exe, args, lines, timeout):
         return []
     k = max(1, min(NPROC, n // 200))
     size = (n + k - 1) // k
+    # the limit is there to catch a spinning process, not to bound honest work: scale it with the size of the shard, so that
+    # a thorough tier on a loaded machine does not turn into a TIMEOUT verdict (20 minutes per 5 000 cases at least)
+    timeout = max(timeout, 1200 * ((size + 4999) // 5000))
     import threading
     outs = [None] * k
 
